@@ -184,7 +184,26 @@ func ruleR8() *Rule {
 			}
 			ps := sitesByFn[mtw]
 			if len(ps) == 0 {
-				c.bad("mergeToWriter/poll-before-first-write", c.fpos(mtw), "mergeToWriter polls the close channel before its first write", "mergeToWriter contains no cancellation poll: a merge cancelled before the call would still create and fill the file")
+				// a poll in every caller, in front of the call, serves the same purpose
+				inCallers := true
+				nCallers := 0
+				for _, cs := range c.p.callersOf(mtw) {
+					caller := cs.Parent()
+					if !c.p.InZap(caller) {
+						continue
+					}
+					nCallers++
+					found := false
+					for _, ps2 := range sitesByFn[caller] {
+						if ps2.iff.Block().Dominates(cs.Block()) && !ps2.taken.Dominates(cs.Block()) {
+							found = true
+						}
+					}
+					if !found {
+						inCallers = false
+					}
+				}
+				c.check(inCallers && nCallers > 0, "mergeToWriter/poll-before-first-write", c.fpos(mtw), "the close channel is polled before the merge's first write (inside mergeToWriter or in front of every call of it)", "no cancellation poll precedes the first write: a merge cancelled before the call would still fill the file")
 				return
 			}
 			n := 0
